@@ -1,9 +1,31 @@
+// Package c03: correspondence + violation search for C03 (scalar operators give
+// reference results; truthiness is context-independent; no operand combination
+// crashes the interpreter).
+//
+// Real code driven: every evaluation is an origami script run in-process through
+// vh.NewEnv().RunSource — `$a OP $b`, `OP $a`, and one statement per truthiness
+// context (if / elseif / while / do-while / for / ?: / ! / && / || / (bool)) — with
+// operands handed over as data.Value objects built on the Go side (exact float
+// bits, arbitrary bytes) and results captured as data.Value objects (no printing,
+// no parsing). Each evaluation runs inside try/catch; whatever does not produce a
+// value is run again alone outside try, so that a Go panic (kind go-panic under
+// RunSource's recover) is told from a catchable error.
+//
+// Comparands: the Lean model driver vm_c03 (Model.Ops with the regenerated
+// truthiness table) and, for the property itself, oracles that know nothing of
+// the model: crash observation, the coherence laws evaluated on origami's own
+// results (truthiness alike in all contexts, == symmetric, != / !== complements,
+// <=> agrees with < and >, / float, zero divisor is an error) and a Go reference
+// of the documented results (ref.go) on the documented domain.
 package c03
 
 import (
+	"encoding/hex"
 	"encoding/json"
 	"fmt"
+	"math"
 	"os"
+	"sort"
 	"strconv"
 	"strings"
 
@@ -16,10 +38,10 @@ func fmtInt(n int64) string { return strconv.FormatInt(n, 10) }
 
 // Case is one replayable evaluation.
 type Case struct {
-	Kind string `json:"kind"`          // bin | un | truth
-	Op   string `json:"op"`            // operator name or truthiness context
-	A    V      `json:"a"`             //
-	B    *V     `json:"b,omitempty"`   // right operand (bin)
+	Kind string `json:"kind"`           // bin | un | truth | fast
+	Op   string `json:"op"`             // operator name or truthiness context
+	A    V      `json:"a"`              //
+	B    *V     `json:"b,omitempty"`    // right operand (bin, fast)
 	Same bool   `json:"same,omitempty"` // bin: both operands are the same variable
 }
 
@@ -34,43 +56,80 @@ func (c Case) Key() string {
 	return k
 }
 
-func (c Case) Expr() string {
+func (c Case) classes() string {
+	if c.B != nil {
+		return c.A.Class() + "," + c.B.Class()
+	}
+	return c.A.Class()
+}
+
+func (c Case) Show() string {
 	switch c.Kind {
 	case "bin":
 		if c.Same {
-			return binExpr(c.Op, "a", "a")
+			return "$x " + opByName[c.Op].Sym + " $x  with $x = " + c.A.Show()
 		}
-		return binExpr(c.Op, "a", "b")
+		return c.A.Show() + " " + opByName[c.Op].Sym + " " + c.B.Show()
 	case "un":
-		return unExpr(c.Op, "a")
+		return opByName[c.Op].Sym + " " + c.A.Show()
+	case "fast":
+		return "$a " + opByName[c.Op].Sym + " <literal " + c.B.Show() + ">  with $a = " + c.A.Show()
 	}
-	return ""
+	return c.Op + "(" + c.A.Show() + ")"
 }
 
-// evalBatch evaluates many cases sharing the left operand table inside one
-// script (each inside try/catch).
+func (c Case) opaque() bool { return !c.A.Scalar() || (c.B != nil && !c.B.Scalar()) }
+
+// script statement for case number i (operand variables a<i>, b<i>)
+func (c Case) stmt(i int, vals *[]V, sb *strings.Builder) {
+	id := strconv.Itoa(i)
+	an := "a" + id
+	*vals = append(*vals, c.A)
+	sb.WriteString(operandInit(an, len(*vals)-1, c.A))
+	bn := an
+	if c.B != nil && !c.Same && c.Kind != "fast" {
+		*vals = append(*vals, *c.B)
+		bn = "b" + id
+		sb.WriteString(operandInit(bn, len(*vals)-1, *c.B))
+	}
+	switch c.Kind {
+	case "bin":
+		sb.WriteString(guarded(i, binExpr(c.Op, an, bn)))
+	case "un":
+		sb.WriteString(guarded(i, unExpr(c.Op, an)))
+	case "fast":
+		// literal right operand: `$a <= 5` builds the fused VarIntLe node, other operators the plain node with a literal child
+		sb.WriteString(guarded(i, "$"+an+" "+opByName[c.Op].Sym+" "+literal(*c.B)))
+	case "truth":
+		sb.WriteString("try { " + truthStmt(c.Op, i, an) + " } catch (Throwable $e) { __e(" + id + ", $e->getMessage()); }\n")
+	}
+}
+
+func literal(v V) string {
+	switch v.K {
+	case "i":
+		return fmtInt(v.I)
+	case "f":
+		s := strconv.FormatFloat(v.Float(), 'f', -1, 64)
+		if !strings.Contains(s, ".") {
+			s += ".0"
+		}
+		return s
+	case "s":
+		return "'" + v.Str() + "'"
+	case "b":
+		return strconv.FormatBool(v.B)
+	}
+	return "null"
+}
+
+// evalBatch evaluates many cases inside one script (each inside try/catch).
 func evalBatch(e *env, cases []Case) []Out {
 	var vals []V
 	var sb strings.Builder
 	sb.WriteString("$zz = false;\n")
 	for i, c := range cases {
-		vals = append(vals, c.A)
-		an := "a" + strconv.Itoa(i)
-		sb.WriteString(operandInit(an, len(vals)-1, c.A))
-		bn := an
-		if c.B != nil && !c.Same {
-			vals = append(vals, *c.B)
-			bn = "b" + strconv.Itoa(i)
-			sb.WriteString(operandInit(bn, len(vals)-1, *c.B))
-		}
-		switch c.Kind {
-		case "bin":
-			sb.WriteString(guarded(i, binExpr(c.Op, an, bn)))
-		case "un":
-			sb.WriteString(guarded(i, unExpr(c.Op, an)))
-		case "truth":
-			sb.WriteString("try { " + truthStmt(c.Op, i, an) + " } catch (Throwable $e) { __e(" + strconv.Itoa(i) + ", $e->getMessage()); }\n")
-		}
+		c.stmt(i, &vals, &sb)
 	}
 	got, o := e.runBatch(vals, sb.String())
 	res := make([]Out, len(cases))
@@ -84,34 +143,593 @@ func evalBatch(e *env, cases []Case) []Out {
 	return res
 }
 
-// evalBare runs one case outside try.
+// evalBare runs one case alone and outside try.
 func evalBare(e *env, c Case) Out {
-	vals := []V{c.A}
-	init := "$zz = false;\n" + operandInit("a", 0, c.A)
-	if c.B != nil && !c.Same {
-		vals = append(vals, *c.B)
-		init += operandInit("b", 1, *c.B)
+	var vals []V
+	var sb strings.Builder
+	sb.WriteString("$zz = false;\n")
+	c.stmt(0, &vals, &sb)
+	src := sb.String()
+	// strip the try/catch wrapper of the single statement
+	src = strings.Replace(src, "try { ", "", 1)
+	if i := strings.LastIndex(src, " } catch (Throwable $e)"); i >= 0 {
+		src = src[:i] + "\n"
 	}
-	switch c.Kind {
-	case "truth":
-		got, o := e.runBatch(vals, init+truthStmt(c.Op, 0, "a")+"\n")
-		switch o.Kind {
-		case "ok":
-			if r, ok := got[0]; ok {
-				return r
-			}
-			return Out{Kind: "none"}
-		case "uncaught":
-			return Out{Kind: "err", Msg: o.Detail}
-		case "go-panic":
+	got, o := e.runBatch(vals, src)
+	switch o.Kind {
+	case "ok":
+		if r, ok := got[0]; ok {
+			return r
+		}
+		return Out{Kind: "none"}
+	case "uncaught":
+		if strings.Contains(o.Detail, panicMark) {
 			return Out{Kind: "crash", Msg: o.Detail}
 		}
-		return Out{Kind: "none", Msg: o.Kind + ": " + o.Detail}
+		return Out{Kind: "err", Msg: o.Detail}
+	case "go-panic":
+		return Out{Kind: "crash", Msg: o.Detail}
 	}
-	return e.runBare(vals, init, c.Expr())
+	return Out{Kind: "none", Msg: o.Kind + ": " + o.Detail}
 }
 
+// ------------------------------------------------------------ model requests
+
+func (r *runner) encModelOperand(v V) string {
+	switch v.K {
+	case "f":
+		return v.Enc() + ":" + hex.EncodeToString([]byte(strconv.FormatFloat(v.Float(), 'g', 14, 64)))
+	case "s":
+		return encOperand(v)
+	case "a":
+		return v.Enc() + ":" + hex.EncodeToString([]byte(r.e.display(v)))
+	case "o", "c":
+		return v.K + ":1:" + hex.EncodeToString([]byte(r.e.display(v)))
+	}
+	return v.Enc()
+}
+
+// float64 a value converts to through AsFloat (what BinaryPow hands to math.Pow)
+func asFloatGo(v V) (float64, bool) {
+	switch v.K {
+	case "i":
+		return float64(v.I), true
+	case "f":
+		return v.Float(), true
+	case "n":
+		return 0, true
+	case "s":
+		f, err := strconv.ParseFloat(v.Str(), 64)
+		return f, err == nil
+	}
+	return 0, false
+}
+
+func powAnn(c Case) string {
+	if c.Op != "pow" || c.B == nil {
+		return "-"
+	}
+	x, ok1 := asFloatGo(c.A)
+	y, ok2 := asFloatGo(*c.B)
+	if !ok1 || !ok2 {
+		return "-"
+	}
+	return fmt.Sprintf("%016x,%016x,%016x", math.Float64bits(x), math.Float64bits(y), math.Float64bits(math.Pow(x, y)))
+}
+
+func (r *runner) modelReq(c Case, spec bool) string {
+	switch c.Kind {
+	case "bin", "fast":
+		same := "0"
+		if c.Same {
+			same = "1"
+		}
+		b := c.A
+		if c.B != nil && !c.Same {
+			b = *c.B
+		}
+		if spec {
+			return "spec\t" + c.Op + "\t" + r.encModelOperand(c.A) + "\t" + r.encModelOperand(b) + "\t" + powAnn(c)
+		}
+		return "bin\t" + c.Op + "\t" + same + "\t" + r.encModelOperand(c.A) + "\t" + r.encModelOperand(b) + "\t" + powAnn(c)
+	case "un":
+		if spec {
+			return "specun\t" + c.Op + "\t" + r.encModelOperand(c.A)
+		}
+		return "un\t" + c.Op + "\t" + r.encModelOperand(c.A)
+	}
+	return "truth\t" + c.Op + "\t" + r.encModelOperand(c.A)
+}
+
+// ------------------------------------------------------------ runner
+
+type runner struct {
+	c     *vh.Ctx
+	e     *env
+	m     *vh.Model
+	print bool
+	sigs  map[string]sigRec // every violation signature seen (first case), for C03_SIGS_OUT
+}
+
+type sigRec struct {
+	What  string `json:"what"`
+	Case  any    `json:"case"`
+	Count int    `json:"count"`
+}
+
+func (r *runner) viol(sig, what string, cs any) {
+	rec := r.sigs[sig]
+	if rec.Count == 0 {
+		rec.What, rec.Case = what, cs
+	}
+	rec.Count++
+	r.sigs[sig] = rec
+	r.c.Violation(sig, what, cs)
+}
+
+// process evaluates a batch: implementation (in try, non-values again outside
+// try), model, per-case oracles. Returns the outcomes for the pairwise laws.
+func (r *runner) process(cases []Case) []Out {
+	outs := evalBatch(r.e, cases)
+	c := r.c
+	for i, cs := range cases {
+		o := outs[i]
+		if o.Kind != "val" {
+			// outside try: catchable error or Go panic?
+			b := evalBare(r.e, cs)
+			c.Hit("bare:" + b.Kind)
+			if b.Kind == "crash" || o.Kind == "crash" {
+				if o.Kind != "crash" {
+					o.Msg = b.Msg
+				}
+				o.Kind = "crash"
+			} else if b.Kind != o.Kind {
+				c.Mismatch(cs, "in-try: "+o.Kind+" "+o.Msg, "bare: "+b.Kind+" "+b.Msg, "outcome inside try differs from the outcome outside try")
+			}
+			outs[i] = o
+		}
+		nontrivial := o.Kind != "val" || cs.Kind != "truth"
+		c.Eval(cs.Key(), nontrivial)
+		c.Hit(cs.Kind + ":" + cs.Op)
+		c.Hit("outcome:" + o.Kind)
+		c.Hit("operands:" + cs.classes())
+		c.SampleSome(map[string]any{"case": cs.Show(), "result": canonOut(o, false)}, 4001)
+
+		// no-crash clause
+		switch o.Kind {
+		case "crash":
+			r.viol("crash:"+cs.Op+":"+cs.classes(), "Go panic evaluating "+cs.Show()+": "+firstLine(o.Msg), cs)
+		case "none":
+			r.viol("no-outcome:"+cs.Op+":"+cs.classes(), "evaluation of "+cs.Show()+" produced neither a value nor an error ("+o.Msg+")", cs)
+		}
+		if o.Kind == "val" && (o.Val.K == "nil" || o.Val.K == "x") {
+			r.viol("non-value:"+cs.Op+":"+cs.classes(), cs.Show()+" evaluated to "+o.Val.Enc(), cs)
+		}
+		// documented results (Go reference, independent of the model)
+		r.checkExact(cs, o)
+	}
+	// model
+	if r.m != nil {
+		reqs := make([]string, 0, 2*len(cases))
+		for _, cs := range cases {
+			reqs = append(reqs, r.modelReq(cs, false))
+			if cs.Kind != "truth" {
+				reqs = append(reqs, r.modelReq(cs, true))
+			}
+		}
+		ans, err := r.m.AskBatch(reqs)
+		if err != nil {
+			c.Mismatch(nil, "", err.Error(), "model driver failed")
+			r.m = nil
+		} else {
+			k := 0
+			for i, cs := range cases {
+				got := ans[k]
+				k++
+				impl := canonOut(outs[i], false)
+				if cs.Kind == "truth" {
+					switch {
+					case outs[i].Kind == "val" && outs[i].Val.K == "b" && outs[i].Val.B:
+						impl = "t"
+					case outs[i].Kind == "val" && outs[i].Val.K == "b":
+						impl = "f"
+					}
+				}
+				if got != impl {
+					c.Mismatch(cs, impl, got, "implementation vs Model.Ops on "+cs.Show())
+				}
+				if r.print {
+					fmt.Printf("  model: %s\n", got)
+				}
+				if cs.Kind != "truth" {
+					sp := ans[k]
+					k++
+					ref, ok := r.ref(cs)
+					want := "undoc"
+					if ok {
+						want = canonOut(ref, false)
+					}
+					if sp != want {
+						c.Mismatch(cs, want, sp, "Go reference of the documented results vs Spec.Ops on "+cs.Show())
+					}
+					if r.print {
+						fmt.Printf("  spec : %s\n", sp)
+					}
+				}
+			}
+			c.Res.Traces += len(cases)
+		}
+	}
+	return outs
+}
+
+func (r *runner) ref(cs Case) (Out, bool) {
+	switch cs.Kind {
+	case "bin", "fast":
+		if cs.Same {
+			return refBin(cs.Op, cs.A, cs.A)
+		}
+		return refBin(cs.Op, cs.A, *cs.B)
+	case "un":
+		return refUn(cs.Op, cs.A)
+	}
+	return Out{Kind: "val", Val: vb(refTruthy(cs.A))}, true
+}
+
+func (r *runner) checkExact(cs Case, o Out) {
+	ref, ok := r.ref(cs)
+	if !ok {
+		return
+	}
+	if cs.Same && cs.A.K == "f" && math.IsNaN(cs.A.Float()) {
+		// `$x == $x` is decided by object identity before any comparison (NaN included): see notes/C03.md
+		return
+	}
+	r.c.Hit("documented-domain")
+	if canonOut(ref, false) != canonOut(o, false) {
+		r.viol("exact:"+cs.Op+":"+cs.classes(), cs.Show()+" gives "+showOut(o)+", documented result "+showOut(ref), cs)
+	}
+}
+
+func showOut(o Out) string {
+	switch o.Kind {
+	case "val":
+		return o.Val.Class() + " " + o.Val.Show()
+	case "err":
+		return "error(" + firstLine(o.Msg) + ")"
+	}
+	return o.Kind
+}
+
+func boolOf(o Out) (bool, bool) {
+	if o.Kind == "val" && o.Val.K == "b" {
+		return o.Val.B, true
+	}
+	return false, false
+}
+
+// ------------------------------------------------------------ coherence laws on origami's own results
+
+type table map[string]Out // key: op + " " + a.Enc() + " " + b.Enc()
+
+func tkey(op string, a, b V) string { return op + " " + a.Enc() + " " + b.Enc() }
+
+func pairClasses(a, b V) string { return a.Class() + "," + b.Class() }
+
+func sortedClasses(a, b V) string {
+	x, y := a.Class(), b.Class()
+	if y < x {
+		x, y = y, x
+	}
+	return x + "," + y
+}
+
+func (r *runner) laws(vals []V, t table) {
+	c := r.c
+	mk := func(op string, a, b V) Case { bb := b; return Case{Kind: "bin", Op: op, A: a, B: &bb} }
+	sameOutcome := func(x, y Out) bool { return canonOut(x, false) == canonOut(y, false) }
+	for _, a := range vals {
+		for _, b := range vals {
+			eq, ne := t[tkey("eq", a, b)], t[tkey("ne", a, b)]
+			qe := t[tkey("eq", b, a)]
+			c.Hit("law:eq-symm")
+			if !sameOutcome(eq, qe) {
+				r.viol("eq-asym:"+sortedClasses(a, b), a.Show()+" == "+b.Show()+" is "+showOut(eq)+" but "+b.Show()+" == "+a.Show()+" is "+showOut(qe), mk("eq", a, b))
+			}
+			c.Hit("law:ne-complement")
+			e1, ok1 := boolOf(eq)
+			n1, ok2 := boolOf(ne)
+			if !((ok1 && ok2 && e1 != n1) || (eq.Kind == "err" && ne.Kind == "err")) {
+				r.viol("ne-not-eq:"+pairClasses(a, b), a.Show()+" == "+b.Show()+" is "+showOut(eq)+" and != is "+showOut(ne), mk("ne", a, b))
+			}
+			se, sn := t[tkey("seq", a, b)], t[tkey("sne", a, b)]
+			s1, ok1 := boolOf(se)
+			s2, ok2 := boolOf(sn)
+			c.Hit("law:sne-complement")
+			if !(ok1 && ok2 && s1 != s2) {
+				r.viol("sne-not-seq:"+pairClasses(a, b), a.Show()+" === "+b.Show()+" is "+showOut(se)+" and !== is "+showOut(sn), mk("sne", a, b))
+			}
+			cm, lt, gt := t[tkey("cmp", a, b)], t[tkey("lt", a, b)], t[tkey("gt", a, b)]
+			c.Hit("law:spaceship")
+			l1, okl := boolOf(lt)
+			g1, okg := boolOf(gt)
+			agree := false
+			switch {
+			case cm.Kind == "val" && cm.Val.K == "i" && okl && okg:
+				agree = (cm.Val.I == -1) == l1 && (cm.Val.I == 1) == g1 && (cm.Val.I >= -1 && cm.Val.I <= 1)
+			case cm.Kind == "err" && lt.Kind == "err" && gt.Kind == "err":
+				agree = true
+			}
+			if !agree {
+				r.viol("cmp-lt:"+pairClasses(a, b), a.Show()+" <=> "+b.Show()+" is "+showOut(cm)+" but < is "+showOut(lt)+" and > is "+showOut(gt), mk("cmp", a, b))
+			}
+			if isNum(a) && isNum(b) {
+				q := t[tkey("quo", a, b)]
+				c.Hit("law:div-float")
+				if !(q.Kind == "val" && q.Val.K == "f") && !(q.Kind == "err" && errKind(q.Msg) == "divzero") {
+					r.viol("quo-not-float:"+pairClasses(a, b), a.Show()+" / "+b.Show()+" is "+showOut(q), mk("quo", a, b))
+				}
+				if (b.K == "i" && b.I == 0) || (b.K == "f" && b.Float() == 0) {
+					for _, op := range []string{"quo", "rem"} {
+						z := t[tkey(op, a, b)]
+						c.Hit("law:zero-divisor")
+						if z.Kind != "err" {
+							r.viol("zero-div:"+op+":"+pairClasses(a, b), a.Show()+" "+opByName[op].Sym+" "+b.Show()+" is "+showOut(z)+", expected a catchable error", mk(op, a, b))
+						}
+					}
+				}
+			}
+		}
+	}
+}
+
+// truthiness: one value through every context
+func (r *runner) truthLaw(vals []V) {
+	c := r.c
+	var cases []Case
+	for _, v := range vals {
+		for _, t := range truthCtx {
+			cases = append(cases, Case{Kind: "truth", Op: t, A: v})
+		}
+	}
+	for len(cases) > 0 {
+		n := len(cases)
+		if n > 600 {
+			n = 600 - 600%len(truthCtx)
+		}
+		outs := r.process(cases[:n])
+		for i := 0; i < n; i += len(truthCtx) {
+			v := cases[i].A
+			var ts, fs []string
+			bad := false
+			for j, t := range truthCtx {
+				b, ok := boolOf(outs[i+j])
+				switch {
+				case !ok:
+					bad = true
+				case b:
+					ts = append(ts, t)
+				default:
+					fs = append(fs, t)
+				}
+			}
+			c.Hit("law:truthy-uniform")
+			if bad || (len(ts) > 0 && len(fs) > 0) {
+				r.viol("truthy:"+v.Class(), v.Show()+" is true in ["+strings.Join(ts, " ")+"] and false in ["+strings.Join(fs, " ")+"]", Case{Kind: "truth", Op: "all", A: v})
+			}
+		}
+		cases = cases[n:]
+	}
+}
+
+// the full operator × vals × vals matrix (+ the same-variable diagonal) and the laws on it
+func (r *runner) matrix(vals []V) {
+	t := table{}
+	var batch []Case
+	flush := func() {
+		if len(batch) == 0 {
+			return
+		}
+		outs := r.process(batch)
+		for i, cs := range batch {
+			if cs.Kind == "bin" && !cs.Same {
+				t[tkey(cs.Op, cs.A, *cs.B)] = outs[i]
+			}
+		}
+		batch = batch[:0]
+	}
+	for i := range vals {
+		a := vals[i]
+		for _, op := range binOps {
+			for j := range vals {
+				b := vals[j]
+				batch = append(batch, Case{Kind: "bin", Op: op.Name, A: a, B: &b})
+			}
+			batch = append(batch, Case{Kind: "bin", Op: op.Name, A: a, B: &a, Same: true})
+			if len(batch) >= 700 {
+				flush()
+			}
+		}
+		for _, op := range unOps {
+			batch = append(batch, Case{Kind: "un", Op: op.Name, A: a})
+		}
+	}
+	flush()
+	r.laws(vals, t)
+	r.truthLaw(vals)
+}
+
+// literal right operands: the fused / literal-child nodes must agree with the plain nodes
+func (r *runner) fastPaths(vals []V) {
+	lits := []V{vi(0), vi(1), vi(-1), vi(5), vi(63), vf(0.5), vs("a"), vb(true), vn()}
+	var cases, plain []Case
+	for _, a := range vals {
+		if !a.Scalar() && a.K != "a" {
+			continue
+		}
+		for _, op := range binOps {
+			for k := range lits {
+				l := lits[k]
+				if l.K == "i" && l.I < 0 && (op.Name == "sub" || op.Name == "add") {
+					continue // `$a -1` lexes differently; not an operator question
+				}
+				cases = append(cases, Case{Kind: "fast", Op: op.Name, A: a, B: &l})
+				plain = append(plain, Case{Kind: "bin", Op: op.Name, A: a, B: &l})
+			}
+		}
+	}
+	for len(cases) > 0 {
+		n := len(cases)
+		if n > 600 {
+			n = 600
+		}
+		fo := r.process(cases[:n])
+		po := evalBatch(r.e, plain[:n])
+		for i := 0; i < n; i++ {
+			r.c.Hit("law:literal-operand")
+			x, y := fo[i], po[i]
+			if y.Kind == "crash" || y.Kind == "err" {
+				// compare kinds only (the plain form was not re-run outside try)
+				if x.Kind == "val" {
+					r.viol("literal-differs:"+cases[i].Op+":"+cases[i].classes(), cases[i].Show()+" gives "+showOut(x)+" but with the literal in a variable "+showOut(y), cases[i])
+				}
+				continue
+			}
+			if canonOut(x, false) != canonOut(y, false) {
+				r.viol("literal-differs:"+cases[i].Op+":"+cases[i].classes(), cases[i].Show()+" gives "+showOut(x)+" but with the literal in a variable "+showOut(y), cases[i])
+			}
+		}
+		cases, plain = cases[n:], plain[n:]
+	}
+}
+
+// ------------------------------------------------------------ random operands (thorough)
+
+func randVal(rd *vh.Rand) V {
+	switch rd.Intn(20) {
+	case 0, 1, 2:
+		return vi(int64(rd.Intn(41) - 20))
+	case 3, 4:
+		return vi(int64(rd.U64()))
+	case 5:
+		edge := []int64{minInt, maxInt, minInt + 1, maxInt - 1, 1 << 53, 1<<53 + 1, -(1 << 53) - 1, 1 << 62, 1 << 31, -(1 << 31), 62, 63, 64, 65}
+		return vi(vh.Pick(rd, edge))
+	case 6, 7:
+		return vf(float64(rd.Intn(41)-20) / 4)
+	case 8:
+		return vf(math.Float64frombits(rd.U64()))
+	case 9:
+		edge := []float64{0, math.Copysign(0, -1), 0.5, -0.5, 0.999, 1e308, -1e308, 5e-324, 9.223372036854775808e18, -9.223372036854775808e18,
+			9.223372036854774784e18, 1 << 53, math.Inf(1), math.Inf(-1), math.NaN(), 1e19, 63.5, 64, 0.1, 0.2, 0.3}
+		return vf(vh.Pick(rd, edge))
+	case 10, 11, 12:
+		alpha := []string{"0", "1", "2", "9", ".", "-", "e", "a", "b", " ", "+", "x", "E", "_", "\x00", "é", "n", "f", "i"}
+		n := rd.Intn(5)
+		var sb strings.Builder
+		for i := 0; i < n; i++ {
+			sb.WriteString(vh.Pick(rd, alpha))
+		}
+		return vs(sb.String())
+	case 13:
+		words := []string{"", "0", "0.0", "1", "-1", "10", "9", "1.5", "1e3", "abc", "true", "false", "null", "inf", "nan", "Infinity", "0x1A", "1_000", " 1", "1 ",
+			"9223372036854775807", "9223372036854775808", "-9223372036854775808", "1e999", "+5", ".5", "5.", "007"}
+		return vs(vh.Pick(rd, words))
+	case 14, 15:
+		return vb(rd.Bool())
+	case 16:
+		return vn()
+	case 17:
+		return va(rd.Intn(4))
+	case 18:
+		return V{K: "o"}
+	}
+	return V{K: "c"}
+}
+
+func (r *runner) random(n int) {
+	// vh.NewRand(seed) states of neighbouring seeds differ by one step of the generator; re-seed through a mix
+	rd := vh.NewRand(r.c.Rand.U64() ^ (r.c.Seed * 0xD6E8FEB86659FD93) ^ 0x5851F42D4C957F2D)
+	var batch []Case
+	for i := 0; i < n; i++ {
+		a, b := randVal(rd), randVal(rd)
+		switch rd.Intn(12) {
+		case 0:
+			batch = append(batch, Case{Kind: "un", Op: vh.Pick(rd, unOps).Name, A: a})
+		case 1:
+			batch = append(batch, Case{Kind: "truth", Op: vh.Pick(rd, truthCtx), A: a})
+		default:
+			batch = append(batch, Case{Kind: "bin", Op: vh.Pick(rd, binOps).Name, A: a, B: &b})
+		}
+		if len(batch) >= 500 {
+			r.process(batch)
+			batch = batch[:0]
+		}
+	}
+	r.process(batch)
+	// the pairwise laws on random small sets
+	for k := 0; k < n/4000; k++ {
+		var vals []V
+		for i := 0; i < 12; i++ {
+			vals = append(vals, randVal(rd))
+		}
+		// distinct encodings only (the law table is keyed by encoding)
+		seen := map[string]bool{}
+		var uniq []V
+		for _, v := range vals {
+			if !seen[v.Enc()] {
+				seen[v.Enc()] = true
+				uniq = append(uniq, v)
+			}
+		}
+		r.matrixLawsOnly(uniq)
+	}
+}
+
+func (r *runner) matrixLawsOnly(vals []V) {
+	t := table{}
+	var batch []Case
+	for i := range vals {
+		for _, op := range []string{"eq", "ne", "seq", "sne", "lt", "gt", "cmp", "quo", "rem"} {
+			for j := range vals {
+				b := vals[j]
+				batch = append(batch, Case{Kind: "bin", Op: op, A: vals[i], B: &b})
+			}
+		}
+	}
+	for len(batch) > 0 {
+		n := len(batch)
+		if n > 600 {
+			n = 600
+		}
+		outs := r.process(batch[:n])
+		for i, cs := range batch[:n] {
+			t[tkey(cs.Op, cs.A, *cs.B)] = outs[i]
+		}
+		batch = batch[n:]
+	}
+	r.laws(vals, t)
+	r.truthLaw(vals)
+}
+
+// ------------------------------------------------------------ entry
+
 func Run(c *vh.Ctx) {
+	r := &runner{c: c, e: newEnv(), sigs: map[string]sigRec{}}
+	if p := os.Getenv("C03_SIGS_OUT"); p != "" {
+		defer func() {
+			b, _ := json.MarshalIndent(r.sigs, "", " ")
+			os.WriteFile(p, b, 0o644)
+		}()
+	}
+	if m, err := vh.StartModel(c.ModelPath); err == nil {
+		r.m = m
+		c.Res.ModelUsed = true
+		defer m.Close()
+	} else {
+		c.Note("running without the model driver: %v", err)
+	}
+	c.Res.Rule = "one evaluation = one operator applied to one operand pair (or one value in one truthiness context) by the real interpreter; non-trivial = everything except a plain true/false of a truthiness context; distinct by (operator, operand encodings)"
+
 	if len(c.ReplayRaw) > 0 {
 		var rc struct {
 			Kind string
@@ -123,47 +741,66 @@ func Run(c *vh.Ctx) {
 			fmt.Printf("kind=%s detail=%s\nout:\n%s\n", o.Kind, o.Detail, o.Out)
 			return
 		}
-		if rc.Kind == "dump" {
-			dump()
+		var cs Case
+		if err := json.Unmarshal(c.ReplayRaw, &cs); err != nil {
+			c.Note("bad replay: %v", err)
 			return
 		}
+		r.replay(cs)
+		return
+	}
+
+	pool := boundaryPool()
+	r.matrix(pool)
+	r.fastPaths(pool)
+	c.Res.Exhaustive = true
+	c.Res.ExhaustiveWhat = fmt.Sprintf("all %d binary operators × %d×%d boundary operands (+ the same-variable diagonal), %d unary operators/casts × %d operands, %d truthiness contexts × %d operands, literal-right-operand forms; every non-value outcome re-run outside try",
+		len(binOps), len(pool), len(pool), len(unOps), len(pool), len(truthCtx), len(pool))
+	if c.Thorough() {
+		r.random(100000)
+	} else {
+		r.random(4000)
+	}
+	if r.m != nil {
+		c.Res.ModelLines = r.m.Lines
+	}
+	// stable order of notes
+	sort.Strings(c.Res.Notes)
+}
+
+func (r *runner) replay(cs Case) {
+	r.print = true
+	c := r.c
+	fmt.Printf("case: %s\n", cs.Show())
+	if cs.Kind == "truth" && cs.Op == "all" {
+		r.truthLaw([]V{cs.A})
+	} else {
+		outs := r.process([]Case{cs})
+		fmt.Printf("  impl : %s  (%s)\n", canonOut(outs[0], false), firstLine(outs[0].Msg))
+		if cs.Kind == "bin" && cs.B != nil && !cs.Same {
+			// the pairwise laws on this pair
+			r.matrixLawsOnly(uniqVals([]V{cs.A, *cs.B}))
+		}
+	}
+	for _, v := range c.Res.Violations {
+		fmt.Printf("  VIOLATION %s: %s\n", v.Sig, v.What)
+	}
+	for s, w := range c.Res.KnownConfirmed {
+		fmt.Printf("  known %s: %s\n", s, w)
+	}
+	for _, m := range c.Res.Mismatches {
+		fmt.Printf("  MISMATCH impl=%s model=%s (%s)\n", m.Impl, m.Model, m.Note)
 	}
 }
 
-func dump() {
-	e := newEnv()
-	pool := boundaryPool()
-	w := os.Stdout
-	for _, a := range pool {
-		var cases []Case
-		for _, op := range binOps {
-			for j := range pool {
-				b := pool[j]
-				cases = append(cases, Case{Kind: "bin", Op: op.Name, A: a, B: &b})
-			}
-		}
-		for _, op := range unOps {
-			cases = append(cases, Case{Kind: "un", Op: op.Name, A: a})
-		}
-		for _, t := range truthCtx {
-			cases = append(cases, Case{Kind: "truth", Op: t, A: a})
-		}
-		outs := evalBatch(e, cases)
-		for i, cs := range cases {
-			o := outs[i]
-			line := cs.Kind + "\t" + cs.Op + "\t" + cs.A.Show()
-			if cs.B != nil {
-				line += "\t" + cs.B.Show()
-			}
-			switch o.Kind {
-			case "val":
-				line += "\t=> " + o.Val.Show()
-			default:
-				line += "\t=> " + o.Kind + " " + o.Msg
-				b := evalBare(e, cs)
-				line += "\t| bare: " + b.Kind + " " + b.Msg
-			}
-			fmt.Fprintln(w, line)
+func uniqVals(vs []V) []V {
+	seen := map[string]bool{}
+	var out []V
+	for _, v := range vs {
+		if !seen[v.Enc()] {
+			seen[v.Enc()] = true
+			out = append(out, v)
 		}
 	}
+	return out
 }
